@@ -199,7 +199,7 @@ OPS = {
 }
 
 
-def propagation(ctx, op):
+def propagation(ctx, op, odd=False):
     da = ctx.da
     lx = ctx.labels('i', 2, 'lx', order='inc')
     ly = ctx.labels('f', 2, 'ly')
@@ -207,6 +207,9 @@ def propagation(ctx, op):
     u = ctx.real('meta')
     hist = [1, 2]
     attrs = {'units': u, 'hist': hist}
+    if odd:
+        # metadata stored under names that are also keywords of the constructor must be carried like any other
+        attrs.update({'copy': 'yes', 'labels': 'lab', 'dims': 'dd'})
     a = ctx.mk(['x', 'y'], [lx, ly], cells, lkinds=['i', 'f'], attrs=attrs)
     bx = [lx[0], ctx.int('bx1')]
     ctx.assume(bx[1] != bx[0])
@@ -219,7 +222,8 @@ def propagation(ctx, op):
     if not isinstance(res, da.DimArray):
         return ctx.done(True, ctx.observe(res))          # scalar results carry no metadata
     if kind == 'keep':
-        ok = ctx.AND(set(res.attrs.keys()) == set(attrs.keys()), res.attrs.get('units') is u, res.attrs.get('hist') == hist)
+        ok = ctx.AND(set(res.attrs.keys()) == set(attrs.keys()), res.attrs.get('units') is u, res.attrs.get('hist') == hist,
+                     all(res.attrs.get(k) == v for k, v in attrs.items() if isinstance(v, str)))
     else:
         ok = ctx.AND('units' not in res.attrs, 'hist' not in res.attrs, 'other' not in res.attrs)
     return ctx.done(ok, ctx.observe(res))
@@ -271,6 +275,9 @@ def templates():
             add('routing-%s-%s' % (what, part), 'routing', cost=1, what=what, part=part)
     for op in OPS:
         add('propagate-%s' % op, 'propagation', cost=0.5, op=op)
+    for op in OPS:
+        if op.startswith('index-') or op in ('sort_axis', 'take_axis', 'reindex_axis', 'reindex_like', 'interp_axis', 'compress_axis', 'dropna'):
+            add('propagate-oddnames-%s' % op, 'propagation', cost=0.5, op=op, odd=True)
     for op in AXIS_OPS:
         add('axis-meta-%s' % op, 'axis_metadata', cost=0.5, op=op)
     return ts
